@@ -1,15 +1,277 @@
 /-
-  C08 — BIP32 derivation (work in progress: first theorems)
--/
-import Buidl.Model.HD
-namespace Buidl.Props.C08
-open Buidl Buidl.HD
+  C08 — BIP32 derivation: public/private consistency, composition, lossless extended keys, blinding.
+  Property theorems only (helper lemmas: Buidl.Proofs.HDPath, Buidl.Proofs.HD).
 
-/-- hardened derivation from a public key is refused -/
-theorem pub_child_hardened_reject (hmac : Bytes → Bytes → Bytes) (h160 : Bytes → Bytes) (p : HDPub) (i : Nat)
-    (hi : 2 ^ 31 ≤ i) : p.child hmac h160 i = none := by
-  have h : cmpOp Gen.hdPubHardOp i Gen.hdPubHardT = true := by
-    simp [cmpOp, Gen.hdPubHardOp]; omega
-  simp [HDPub.child, h]
+  Model: Buidl.Model.HD (constants from Buidl.Gen.HD, re-extracted from /repo on every run);
+  specification: Buidl.Spec.BIP32 (the BIP text).  `hmac` (HMAC-SHA512), `h160` (hash160) and
+  `hash256` are arbitrary functions (`hash256` must return at least the four checksum bytes).
+  The elliptic-curve facts come from C03 (Buidl.Proofs.Secp256k1 / SecpCodec): nothing here is
+  relative to an unproved group-law hypothesis.
+
+  Hypotheses standing for negligible events are explicit: `I_L < n` (`hIL`), a child key that is zero /
+  a child point at infinity (`hK`, or the dedicated theorem `pub_priv_child_zero_key`).
+-/
+import Buidl.Proofs.HD
+namespace Buidl.Props.C08
+open Buidl Buidl.EC Buidl.PyStr Buidl.HD
+
+variable (hmac : Bytes → Bytes → Bytes) (h160 : Bytes → Bytes)
+
+/-! ## deriving privately then taking the public key = deriving publicly (i < 2^31), in every field -/
+
+/-- whenever HDPrivateKey.child(i) succeeds for a non-hardened index, HDPublicKey.child(i) of its public
+    key succeeds and returns exactly the public key of the private child: point
+    (`((I_L + k) mod n)·G = k·G + I_L·G`), chain code, depth, parent fingerprint, child number, network
+    and version bytes -/
+theorem pub_priv_child_consistent (k k' : HDPriv) (i : Nat) (hi : i < 2 ^ 31)
+    (h : k.child hmac h160 i = some k') : k.pub.child hmac h160 i = some k'.pub :=
+  child_pub_consistent_rel hmac h160 groupAdd k i hi k' h
+
+/-- the only way the two can differ: the private side refuses (child key 0: `PrivateKey(0)` raises) while
+    the public side returns a key whose point is the point at infinity (BIP32: "invalid key") -/
+theorem pub_priv_child_zero_key (k : HDPriv) (i : Nat) (hi : i < 2 ^ 31) (q : HDPub)
+    (hpriv : k.child hmac h160 i = none) (hpub : k.pub.child hmac h160 i = some q) : q.point = .inf :=
+  child_pub_zero_key_rel hmac h160 groupAdd k i hi q hpriv hpub
+
+/-- conversely: a public child with a finite point is the public key of the private child -/
+theorem pub_priv_child_converse (k : HDPriv) (i : Nat) (hi : i < 2 ^ 31) (q : HDPub)
+    (hpub : k.pub.child hmac h160 i = some q) (hfin : q.point ≠ .inf) :
+    ∃ k', k.child hmac h160 i = some k' ∧ k'.pub = q := by
+  cases hk : k.child hmac h160 i with
+  | none => exact absurd (pub_priv_child_zero_key hmac h160 k i hi q hk hpub) hfin
+  | some k' =>
+    have := pub_priv_child_consistent hmac h160 k k' i hi hk
+    rw [this] at hpub
+    exact ⟨k', rfl, Option.some.inj hpub⟩
+
+/-- along a whole path: whenever the private and the public traverse both succeed they agree -/
+theorem priv_pub_traverse_consistent (path : Str) (k k' : HDPriv) (q : HDPub)
+    (hk : k.traverse hmac h160 path = some k') (hq : k.pub.traverse hmac h160 path = some q) : q = k'.pub :=
+  priv_pub_traverse_consistent_rel hmac h160 groupAdd path k k' q hk hq
+
+/-! ## hardened derivation from a public key is refused -/
+
+theorem pub_child_hardened_reject (p : HDPub) (i : Nat) (hi : 2 ^ 31 ≤ i) : p.child hmac h160 i = none :=
+  pub_child_hardened hmac h160 p i hi
+
+theorem pub_childI_hardened_reject (p : HDPub) (i : Int) (hi : 2 ^ 31 ≤ i) : p.childI hmac h160 i = none :=
+  pub_childI_hardened hmac h160 p i hi
+
+/-- a path with a component marked hardened (`'`, `h` or `H`, which normalisation turns into `'`) is refused -/
+theorem pub_traverse_hardened_reject (p : HDPub) (path : Str)
+    (h : ∃ c ∈ components (normPath path), endsWithChar '\'' c = true) : p.traverse hmac h160 path = none := by
+  unfold HDPub.traverse
+  simp only []
+  split
+  · rfl
+  · exact pub_walk_hardened hmac h160 p _ h
+
+/-- … and so is a path with a component whose number is ≥ 2^31 -/
+theorem pub_traverse_hardened_index_reject (p : HDPub) (path : Str)
+    (h : ∃ c ∈ components (normPath path), ∃ i : Int, pyInt c = some i ∧ 2 ^ 31 ≤ i) :
+    p.traverse hmac h160 path = none := by
+  unfold HDPub.traverse
+  simp only []
+  split
+  · rfl
+  · exact pub_walk_hardened_index hmac h160 p _ h
+
+/-! ## deriving along a path = deriving its components one by one -/
+
+theorem priv_walk_append (k : HDPriv) (cs ds : List Str) :
+    k.walk hmac h160 (cs ++ ds) = (k.walk hmac h160 cs).bind (fun k' => k'.walk hmac h160 ds) :=
+  HD.priv_walk_append hmac h160 k cs ds
+
+theorem pub_walk_append (p : HDPub) (cs ds : List Str) :
+    p.walk hmac h160 (cs ++ ds) = (p.walk hmac h160 cs).bind (fun p' => p'.walk hmac h160 ds) :=
+  HD.pub_walk_append hmac h160 p cs ds
+
+/-- `traverse(p + "/" + rest) = traverse("m/" + rest)` applied to `traverse(p)` — for every string `p`, `rest` -/
+theorem priv_traverse_append (k : HDPriv) (p rest : Str) :
+    k.traverse hmac h160 (p ++ '/' :: rest)
+      = (k.traverse hmac h160 p).bind (fun k' => k'.traverse hmac h160 ('m' :: '/' :: rest)) :=
+  HD.priv_traverse_append hmac h160 k p rest
+
+theorem pub_traverse_append (p : HDPub) (path rest : Str) :
+    p.traverse hmac h160 (path ++ '/' :: rest)
+      = (p.traverse hmac h160 path).bind (fun p' => p'.traverse hmac h160 ('m' :: '/' :: rest)) :=
+  HD.pub_traverse_append hmac h160 p path rest
+
+/-- traverse is the (monadic) left fold of `child` over the components after the first `/` -/
+theorem priv_traverse_is_fold (k : HDPriv) (path : Str) (hm : startsWith ['m'] (normPath path) = true) :
+    k.traverse hmac h160 path
+      = (components (normPath path)).foldlM (fun k c => (privIndex c).bind (k.childI hmac h160)) k := by
+  rw [← priv_walk_eq_foldlM]
+  simp [HDPriv.traverse, hm]
+
+theorem pub_traverse_is_fold (p : HDPub) (path : Str) (hm : startsWith ['m'] (normPath path) = true) :
+    p.traverse hmac h160 path
+      = (components (normPath path)).foldlM (fun p c => (pubIndex c).bind (p.childI hmac h160)) p := by
+  rw [← pub_walk_eq_foldlM]
+  simp [HDPub.traverse, hm]
+
+/-! ## the model against the BIP32 text (Buidl.Spec.BIP32) -/
+
+/-- HDPrivateKey.child = CKDpriv, for every key with 1 ≤ k < n and every index below 2^32, under `I_L < n`:
+    same success/failure, same child key and chain code -/
+theorem priv_child_eq_spec (k : HDPriv) (i : Nat) (hs1 : 1 ≤ k.secret) (hs : k.secret < N) (hi : i < 2 ^ 32)
+    (hIL : ∀ d, beToNat ((hmac k.chainCode d).take 32) < Spec.BIP32.n) :
+    (k.child hmac h160 i).map (fun k' => (k'.secret, k'.chainCode))
+      = (Spec.BIP32.CKDpriv hmac k.secret k.chainCode i).bind Spec.BIP32.Result.toOption :=
+  priv_child_eq_spec_rel hmac h160 k i hs hi hIL (sec_smul_G_isSome hs1 hs)
+
+/-- the remaining fields of a private child: depth + 1, child number = index, parent fingerprint =
+    first four bytes of HASH160(serP(point(k_par))), network and versions inherited -/
+theorem priv_child_fields_eq_spec (k k' : HDPriv) (i : Nat) (h : k.child hmac h160 i = some k') :
+    k'.depth = k.depth + 1 ∧ k'.childNumber = i ∧
+    some k'.parentFp = Spec.BIP32.fingerprint h160 (Spec.BIP32.point k.secret) ∧
+    k'.network = k.network ∧ k'.privVersion = k.privVersion ∧ k'.pubVersion = k.pubVersion :=
+  priv_child_fields hmac h160 k k' i h
+
+/-- HDPublicKey.child = CKDpub for every curve point, under `I_L < n` and `K_i ≠ ∞` -/
+theorem pub_child_eq_spec (p : HDPub) (i : Nat) (hp : Valid P A B p.point)
+    (hIL : ∀ d, beToNat ((hmac p.chainCode d).take 32) < Spec.BIP32.n)
+    (hK : ∀ d, saddInt p.point ((beToNat ((hmac p.chainCode d).take 32) : Nat) : Int) ≠ .inf) :
+    (p.child hmac h160 i).map (fun q => (q.point, q.chainCode))
+      = (Spec.BIP32.CKDpub hmac p.point p.chainCode i).bind Spec.BIP32.Result.toOption :=
+  pub_child_eq_spec_rel hmac h160 p i hIL hK (fun a => sadd_comm_G a hp)
+
+/-- HDPrivateKey.from_seed = master key generation (including the refusal of I_L = 0 and I_L ≥ n), whenever
+    the version bytes are given or the network is one of the table -/
+theorem from_seed_eq_spec (seed : Bytes) (net : String) (pv bv : Option Bytes)
+    (hpv : (versionOr pv Gen.hdXprv net).isSome) (hbv : (versionOr bv Gen.hdXpub net).isSome) :
+    (fromSeed hmac seed net pv bv).map (fun k => (k.secret, k.chainCode, k.depth, k.parentFp, k.childNumber))
+      = (Spec.BIP32.master hmac seed).toOption.map (fun kc => (kc.1, kc.2, 0, [0, 0, 0, 0], 0)) :=
+  HD.from_seed_eq_spec hmac seed net pv bv hpv hbv
+
+theorem fingerprint_eq_spec (p : HDPub) : p.fingerprint h160 = Spec.BIP32.fingerprint h160 p.point :=
+  HD.fingerprint_eq_spec h160 p
+
+/-! ## extended keys survive serialise / parse, for all 20 version prefixes -/
+
+/-- the serialisation is the 78-byte layout of the BIP -/
+theorem priv_serialize_eq_spec (k : HDPriv) (v : Bytes) (wf : PrivSerWF k v) :
+    k.rawSerialize v = some (Spec.BIP32.serializePriv v k.depth k.parentFp k.childNumber k.chainCode k.secret) := by
+  rw [priv_rawSerialize_eq k v wf]
+  simp [Spec.BIP32.serializePriv, Spec.BIP32.ser32, Spec.BIP32.ser256]
+
+theorem pub_serialize_eq_spec (p : HDPub) (v : Bytes) (wf : PubSerWF p v) :
+    p.serialize v = Spec.BIP32.serializePub v p.depth p.parentFp p.childNumber p.chainCode p.point := by
+  cases hs : sec p.point true with
+  | none =>
+    have : Spec.BIP32.serP p.point = none := by rw [← sec_eq_serP]; exact hs
+    simp [HDPub.serialize, hs, Spec.BIP32.serializePub, this]
+  | some s =>
+    have : Spec.BIP32.serP p.point = some s := by rw [← sec_eq_serP]; exact hs
+    rw [pub_serialize_eq p v wf s hs]
+    simp [Spec.BIP32.serializePub, this, Spec.BIP32.ser32]
+
+/-- the version tables of hd.py are exactly the ten SLIP-0132 pairs (five mainnet, five testnet) -/
+theorem version_tables_eq_slip132 :
+    (∀ e ∈ Spec.BIP32.slip132.take 5, inSet Gen.hdAllMainnetXpubs e.2.1 = true ∧ inSet Gen.hdAllMainnetXprvs e.2.2 = true) ∧
+    (∀ e ∈ Spec.BIP32.slip132.drop 5, inSet Gen.hdAllTestnetXpubs e.2.1 = true ∧ inSet Gen.hdAllTestnetXprvs e.2.2 = true) ∧
+    Gen.hdAllMainnetXpubs.length = 5 ∧ Gen.hdAllMainnetXprvs.length = 5 ∧
+    Gen.hdAllTestnetXpubs.length = 5 ∧ Gen.hdAllTestnetXprvs.length = 5 ∧
+    dictGet Gen.hdXprv "mainnet" = some Spec.BIP32.versionMainPriv ∧ dictGet Gen.hdXpub "mainnet" = some Spec.BIP32.versionMainPub ∧
+    dictGet Gen.hdXprv "testnet" = some Spec.BIP32.versionTestPriv ∧ dictGet Gen.hdXpub "testnet" = some Spec.BIP32.versionTestPub := by
+  decide
+
+/-- HDPrivateKey.parse(k.xprv(v)) returns the same key — secret, chain code, depth (0..255), parent
+    fingerprint, child number (< 2^32), version bytes — for each of the ten private prefixes; the network is the
+    one the version determines and `pub_version` its default (that is all `parse` can know).  Serialising the
+    parsed key gives the same string again. -/
+theorem priv_parse_xprv (hash256 : Bytes → Bytes) (hh : ∀ b, 4 ≤ (hash256 b).length) (k : HDPriv) (v : Bytes)
+    (wf : PrivSerWF k v) (x : Str) (hx : k.xprv hash256 (some v) = some x) :
+    HDPriv.parse hash256 x = some (parsedPriv k v) ∧ (parsedPriv k v).xprv hash256 none = some x := by
+  refine ⟨priv_parse_xprv_rel hash256 (b58RoundTrip hash256 hh) k v wf x hx, ?_⟩
+  have hv : (parsedPriv k v).privVersion = v := by unfold parsedPriv; split <;> rfl
+  simp only [HDPriv.xprv, Option.getD_none, Option.getD_some, hv, parsedPriv_rawSerialize] at hx ⊢
+  exact hx
+
+/-- every well-formed private key does serialise -/
+theorem priv_xprv_defined (hash256 : Bytes → Bytes) (k : HDPriv) (v : Bytes) (wf : PrivSerWF k v) :
+    k.xprv hash256 (some v) = Base58.encodeBase58Checksum hash256
+      (Spec.BIP32.serializePriv v k.depth k.parentFp k.childNumber k.chainCode k.secret) := by
+  simp [HDPriv.xprv, priv_serialize_eq_spec k v wf]
+
+/-- HDPublicKey.parse(p.xpub(v)) returns the same key for each of the ten public prefixes and every curve point -/
+theorem pub_parse_xpub (hash256 : Bytes → Bytes) (hh : ∀ b, 4 ≤ (hash256 b).length) (p : HDPub) (v : Bytes)
+    (wf : PubSerWF p v) (hp : Valid P A B p.point) (x : Str) (hx : p.xpub hash256 (some v) = some x) :
+    HDPub.parse hash256 x = some (parsedPub p v) ∧ (parsedPub p v).xpub hash256 none = some x := by
+  refine ⟨pub_parse_xpub_rel hash256 (b58RoundTrip hash256 hh) p v wf (fun s hs => sec_roundtrip hp s hs) x hx, ?_⟩
+  have hv : (parsedPub p v).pubVersion = v := by unfold parsedPub; split <;> rfl
+  simp only [HDPub.xpub, Option.getD_none, Option.getD_some, hv, parsedPub_serialize] at hx ⊢
+  exact hx
+
+/-- the public key of any private key with 1 ≤ k < n is a finite curve point, so the theorem above applies to it -/
+theorem priv_pub_point_valid (k : HDPriv) (hs1 : 1 ≤ k.secret) (hs : k.secret < N) :
+    Valid P A B k.pub.point ∧ k.pub.point ≠ .inf :=
+  ⟨smul_G_valid _, smul_G_ne_inf hs1 hs⟩
+
+/-! ## blinding -/
+
+/-- blind_xpub(x, p, s): parses `x`, requires depth = number of `/` in `p`, returns the xpub of
+    `traverse(s)` of the parsed key and `combine_bip32_paths(p, s)` -/
+theorem blind_xpub_spec (hash256 : Bytes → Bytes) (x p s cx full : Str)
+    (h : blindXpub hash256 hmac h160 x p s = some (cx, full)) :
+    ∃ X c, HDPub.parse hash256 x = some X ∧ X.depth = count '/' p ∧ X.traverse hmac h160 s = some c ∧
+      c.xpub hash256 none = some cx ∧ combinePaths p s = some full :=
+  blindXpub_some hmac h160 hash256 h
+
+/-- the combined path leads to the key at the second path below the key at the first path -/
+theorem combine_paths_traverse_priv (k : HDPriv) (p s full : Str) (h : combinePaths p s = some full) :
+    k.traverse hmac h160 full
+      = (k.traverse hmac h160 (forgive p)).bind (fun k' => k'.traverse hmac h160 (forgive s)) :=
+  combine_traverse_priv hmac h160 k p s full h
+
+theorem combine_paths_traverse_pub (k : HDPub) (p s full : Str) (h : combinePaths p s = some full) :
+    k.traverse hmac h160 full
+      = (k.traverse hmac h160 (forgive p)).bind (fun k' => k'.traverse hmac h160 (forgive s)) :=
+  combine_traverse_pub hmac h160 k p s full h
+
+/-- blinding an xpub with a secret path returns exactly the key found at the combined path from the root:
+    if `x` is (parses to) the public key of the key at `p` below `root`, then the key at the returned path
+    below `root` has the returned xpub.  `p` and `s` are in the normal form that the library itself produces
+    (lower case, `h` notation, no `//`, no surrounding blanks: `forgive p = p`). -/
+theorem blind_xpub_is_key_at_combined_path (hash256 : Bytes → Bytes) (root kp kf : HDPriv)
+    (x p s cx full : Str) (hp : forgive p = p) (hs : forgive s = s)
+    (hkp : root.traverse hmac h160 p = some kp) (hx : HDPub.parse hash256 x = some kp.pub)
+    (hb : blindXpub hash256 hmac h160 x p s = some (cx, full))
+    (hkf : root.traverse hmac h160 full = some kf) :
+    kf.pub.xpub hash256 none = some cx :=
+  blind_is_key_at_combined_path_rel hmac h160 hash256 groupAdd root kp kf x p s cx full hp hs hkp hx hb hkf
+
+/-! ## finding F08a -/
+
+/-- the code before fix-F08a: a path written with an upper-case `M` is refused by the public traverse … -/
+theorem F08a_witness (p : HDPub) (rest : Str) : p.traverseF08a hmac h160 ('M' :: rest) = none :=
+  pub_traverseF08a_M hmac h160 p rest
+
+/-- … the repaired code treats `M` as `m`, as the private traverse always did -/
+theorem pub_traverse_upper_M (p : HDPub) (rest : Str) :
+    p.traverse hmac h160 ('M' :: rest) = p.traverse hmac h160 ('m' :: rest) :=
+  pub_traverse_M hmac h160 p rest
+
+theorem priv_traverse_upper_M (k : HDPriv) (rest : Str) :
+    k.traverse hmac h160 ('M' :: rest) = k.traverse hmac h160 ('m' :: rest) :=
+  priv_traverse_M hmac h160 k rest
+
+/-! ## the hypotheses are satisfiable -/
+
+example : PrivSerWF (HDPriv.mk 1 (List.replicate 32 0) 255 [1, 2, 3, 4] (2 ^ 32 - 1) "mainnet" [4, 136, 173, 228]
+    [4, 136, 178, 30]) [2, 170, 122, 153] :=
+  ⟨by decide, by decide, rfl, rfl, by decide, by decide, Or.inr (by decide)⟩
+
+example : PubSerWF (HDPub.mk G (List.replicate 32 0) 0 [0, 0, 0, 0] 0 "testnet" [4, 53, 135, 207]) [2, 87, 84, 131] :=
+  ⟨by decide, by decide, rfl, rfl, Or.inl (by decide)⟩
+
+example : ∀ d : Bytes, beToNat (((fun (_ _ : Bytes) => List.replicate 64 (1 : UInt8)) [] d).take 32) < Spec.BIP32.n := by
+  intro d
+  show beToNat ((List.replicate 64 (1 : UInt8)).take 32) < Spec.BIP32.n
+  decide
+
+example : forgive "m/48h/1h/0h/2h".toList = "m/48h/1h/0h/2h".toList := by decide
+
+example : combinePaths "m/48h/1h".toList "m/7/9".toList = some "m/48h/1h/7/9".toList := by decide
 
 end Buidl.Props.C08
